@@ -125,3 +125,65 @@ PROPS["C14"] = {
     ],
     "k_budget": {"quick": {"jobs": 2, "timeout_s": 1200, "mem_gb": 14}},
 }
+
+PROPS["C16"] = {
+    "engine": "mir-bmc + kani-real", "technique": _M_TECH,
+    "bounds": "engine M: one consumer thread that returns + 2 (quick) / 3 (thorough) producers colliding at the full boundary (BUFFER_SIZE 2, pre-filled full); a producer that is still not finished although every other thread returned K steps earlier (K = its longest acyclic path + 2) is a violation; stuttering allowed, no partial-order reduction. engine K (harnesses c01::*): rejected send leaves pending count unchanged, payload handed back, after a drain exactly BUFFER_SIZE sends are accepted, any origin",
+    "outside": "more than 3 producers; unbounded fill/drain histories beyond the script length (K covers L<=6 + drain + refill); Arc Multi channels and crossbeam setter sends (excluded by the statement)",
+    "assumptions": [_M_NOTE, "'returns promptly' is decided as: the call finishes within a bounded number of its own steps once no other thread is running"],
+    "m": [M("c16_atomic_two_rejected_vs_consumer_n2"), M("c16_atomic_rejected_vs_two_recv_n2"), M("c16_fullsync_two_rejected_vs_consumer_n2"), M("c16_zc_atomic_rejected_vs_consumer_n2"),
+          M("c16_atomic_three_senders_n2", "thorough"), M("c16_zc_fullsync_rejected_vs_consumer_n2", "thorough")],
+    "k": [H("c01::c01_ring_atomic_n2_l5", inst="AtomicMove<u32,2>", bounds="L=5", oracle="C16 assertions of the FIFO script", stubs=_C08_STUBS),
+          H("c01::c01_ring_full_sync_n2_l5", inst="FullSyncMove<u32,2>", bounds="L=5", stubs=_C08_STUBS)],
+    "k_budget": {"quick": {"jobs": 2, "timeout_s": 1200, "mem_gb": 14}},
+}
+PROPS["C18"] = {
+    "engine": "mir-bmc + kani-real", "technique": _M_TECH,
+    "bounds": "engine M: atomic-flag stack, 2-3 threads x <=2 (quick) / 3 (thorough) push/pop, capacity 2 / 4, strict linearizability against a bounded LIFO; the two non-blocking queues through the MIR of the zero-copy rings they wrap (linearizable FIFO, see C02); engine K: sequential scripts L=5..6 on the real Stack / parking-lot Stack / NonBlockingQueue types against array models",
+    "outside": "the parking-lot stack under concurrency (parking_lot::RawMutex is dependency code: only sequential K scripts); METRICS/DEBUG=true instantiations; 'long free-running multi-core runs' (not solver-based)",
+    "assumptions": [_M_NOTE],
+    "m": [M("c18_stack_push_vs_pop_n2_k1"), M("c18_stack_3thr_n2_k1"), M("c18_stack_full_boundary_n2_k2"), M("c18_queue_atomic_lin_p_cc_n2_k1"), M("c18_queue_fullsync_lin_p_cc_n2_k1"),
+          M("c18_stack_3thr_n4_k2", "thorough"), M("c18_stack_2x3_n2_k1", "thorough"), M("c18_queue_atomic_lin_pp_c_c_n2_k1", "thorough")],
+    "k": [H("c18::c18_atomic_stack_n2_l6", inst="non_blocking_atomic_stack::Stack<u32,2,false,false>", bounds="L=6", oracle="array LIFO model", stubs=_C08_STUBS),
+          H("c18::c18_parking_lot_stack_n2_l6", inst="non_blocking_parking_lot_stack::Stack<u32,2,false,false>", bounds="L=6", oracle="array LIFO model", stubs=_C08_STUBS),
+          H("c18::c18_atomic_queue_n2_l5", inst="atomic::NonBlockingQueue<u32,2,0>", bounds="L=5", oracle="array FIFO model", stubs=_C08_STUBS),
+          H("c18::c18_full_sync_queue_n2_l5", inst="full_sync::NonBlockingQueue<u32,2,0>", bounds="L=5", oracle="array FIFO model", stubs=_C08_STUBS)],
+    "k_budget": {"quick": {"jobs": 4, "timeout_s": 1200, "mem_gb": 14}},
+}
+PROPS["C19"] = {
+    "engine": "mir-bmc + kani-real", "technique": _M_TECH,
+    "bounds": "engine M: 2 (quick) / 3 (thorough) recording threads x <=2 inc + one reader x 2 probe; count exact, every probed / final (count, average) pair equals the update function folded over some order of the measurements; f32 arithmetic ABSTRACTED by bit-vector mixing functions (the claim does not depend on numeric values). engine K: real f32 semantics, sequential, two finite measurements in [-1000, 1000]: average == mean within 1e-3 relative",
+    "outside": "the numeric claim for more than 2 measurements; counts at the u32::MAX reset (excluded by the statement); lightweight_probe (documented as unsynchronised)",
+    "assumptions": [_M_NOTE, "engine M replaces IEEE f32 +,*,/ by fixed bit-vector mixing functions in BOTH the code and the oracle"],
+    "m": [M("c19_two_writers_one_reader"), M("c19_two_writers_two_each"), M("c19_three_writers_one_reader", "thorough"), M("c19_two_writers_two_each_reader", "thorough")],
+    "k": [H("c19::c19_mean_of_two", inst="AtomicIncrementalAverage64", bounds="2 measurements in [-1000,1000], real f32", oracle="|avg - mean| <= 1e-3 * max(1,|mean|); pairs (1,a) and (2,mean)")],
+    "k_budget": {"quick": {"jobs": 1, "timeout_s": 1200, "mem_gb": 14}},
+}
+PROPS["C20"] = {
+    "engine": "mir-bmc", "technique": _M_TECH,
+    "bounds": "engine M: a suspended send_with_async is modelled by what the real code has done when it suspends: the slot reservation of the channel's container (leak_slot_internal / leak_slot) by a thread that then returns and never publishes within the run; 1-2 other threads perform send / receive; an operation that is still unfinished K steps after every other thread returned spins (K = its longest acyclic path + 2); containers of all four Uni channel kinds that implement send_with_async over rings (movable atomic / full-sync, zero-copy atomic / full-sync), BUFFER_SIZE 2",
+    "outside": "the coroutine state machine of send_with_async itself (not translated; its pre-await part is exactly the reservation call that is encoded); Multi channels (they allocate separately per send, like the zero-copy Uni channels); crossbeam; resumption of the suspended send (its completion path is the ordinary publish path decided under C01/C08)",
+    "assumptions": [_M_NOTE],
+    "m": [M("c20_zc_atomic_suspended_vs_send_recv"), M("c20_zc_fullsync_suspended_vs_send_recv"), M("c20_atomic_suspended_vs_recv"), M("c20_atomic_suspended_vs_send"),
+          M("c20_fullsync_suspended_vs_send"), M("c20_fullsync_suspended_vs_recv")],
+    "k": [],
+}
+PROPS["C04"] = {
+    "engine": "mir-bmc", "technique": _M_TECH,
+    "bounds": "engine M: uni movable full-sync and atomic channels, MAX_STREAMS 1, one stream whose task is driven by an executor model (poll_next; park when Pending; re-poll when its waker was invoked); 1 producer x 1-2 sends (quick), 2 producers / 3 sends with BUFFER_SIZE 4 (thorough); stream either never polled before or parked with its waker registered; violation = quiescent state with producers returned, task parked and un-woken, event pending; functions: <channel>::send, StreamsManagerBase::{wake_stream, register_stream_waker, keep_stream_running}, MutinyStream::poll_next, <channel>::consume, ring publish/consume",
+    "outside": "send_with / send_with_async / try_send_reserved wake rules and the Multi channels' send_derived (not encoded in this round); MAX_STREAMS 2; Tokio's own wake-to-poll latency (the model re-polls whenever woken); zero-copy and crossbeam channels",
+    "assumptions": [_M_NOTE, "a Waker is an abstract task id; Waker::{clone, will_wake, wake_by_ref} are intrinsics; ogre_sync::lock's retry ladder is encoded as one retrying CAS after its MIR was checked to be exactly that"],
+    "m": [M("c04_full_sync_first_park_vs_send"), M("c04_full_sync_parked_vs_send"), M("c04_atomic_first_park_vs_send"), M("c04_atomic_parked_vs_two_sends"),
+          M("c04_full_sync_parked_vs_two_producers", "thorough"), M("c04_atomic_parked_vs_three_sends_n4", "thorough")],
+    "k": [],
+}
+PROPS["C05"] = {
+    "engine": "kani-real + mir-bmc", "technique": _M_TECH,
+    "bounds": "engine K: movable rings carrying a destructor-counting payload: scripts of L=4 send / receive+drop / receive+hold, then the ring is dropped with whatever is buffered; every accepted payload destroyed exactly once, CBMC pointer checks (dead object / double free) on; engine M: the last handles to one pooled value dropped / cloned concurrently on 2-3 threads (control block freed once, slot returned once, never touched after the free), see also C14",
+    "outside": "whole-channel teardown of the Multi ogre_arc channels (Kani exhausts 45 GB on the channel object; their fields drop the allocator before the per-listener queues -- see DESIGN.md findings, decided by reading only); Arc-based Multi channels (std Arc); destructors that touch the channel",
+    "assumptions": [_M_NOTE, "setters initialise the slot without reading or dropping its previous bytes; handles do not outlive their channel (both granted by the statement)"],
+    "m": [M("c05_arc_last_two_drops"), M("c05_arc_clone_drop_vs_drop"), M("c05_arc_three_droppers", "thorough"), M("c05_arc_fullsync_last_two_drops", "thorough")],
+    "k": [H("c05::c05_ring_atomic_teardown_n2_l4", inst="AtomicMove<Tracked,2>", bounds="L=4 then drop with leftovers", oracle="drop counter per payload == 1 iff accepted", stubs=_C08_STUBS),
+          H("c05::c05_ring_full_sync_teardown_n2_l4", inst="FullSyncMove<Tracked,2>", bounds="L=4 then drop with leftovers", stubs=_C08_STUBS)],
+    "k_budget": {"quick": {"jobs": 2, "timeout_s": 1200, "mem_gb": 14}},
+}
